@@ -138,7 +138,7 @@ def tcpParse (impl : String) : P Verdict := do
   let model := match parseTcpSigFull t with
     | some v => s!"ok {encTcp v} {hexText (printTcpSig v)}"
     | none => "err"
-  let kf := if decide (Huginn.KF.C06.unknownKindOverflow t) then ["KF.C06.unknownKindOverflow"] else []
+  let kf : List String := []
   let (specOk, spec) := match refTcp t with
     | none => (impl == "err", "err")
     | some v =>
@@ -159,7 +159,7 @@ def httpRoundTrip (impl : String) : P Verdict := do
   let want := s!"ok {encHttp s}"
   let implRe := match impl.splitOn " " with | _ :: r => sp r | [] => ""
   let specified := decide (WFHttpL s)
-  let kf := if decide (Huginn.KF.C06.httpEmptyHorder s) then ["KF.C06.httpEmptyHorder"] else []
+  let kf : List String := []
   pure { modelEq := impl == model,
          specOk := if specified then some (implRe == want) else none,
          kf := kf, tag := "http/" ++ httpTag s, model := model, spec := s!"<text> {want}" }
@@ -413,12 +413,11 @@ def docLoad (impl : String) : P Verdict := do
   let mine := renderLines (linesWithFault d f)
   if mine != text then failure    -- harness and specification must render the same text
   let model := loadOut text
-  let kfUa := decide (Huginn.KF.C06.uaOsLossy d)
   let nsec := d.sections.length
   match f with
   | some f =>
     if !faultGenuine d f then failure
-    let kf := if f.kind == 2 && decide (Huginn.KF.C06.unknownKindOverflow f.text) then ["KF.C06.unknownKindOverflow"] else []
+    let kf : List String := []
     pure { modelEq := impl == model, specOk := some (impl.startsWith "err:"), kf := kf,
            tag := s!"doc/fault{f.kind}/" ++ (if model.startsWith "err:" then model else "accepted"),
            model := model, spec := "err:<any>" }
@@ -426,8 +425,7 @@ def docLoad (impl : String) : P Verdict := do
     let wf := decide (WFDoc d)
     let spec := dbValues (flatten d)
     pure { modelEq := impl == model, specOk := if wf then some (impl == spec) else none,
-           kf := (if kfUa then ["KF.C06.uaOsLossy"] else []) ++
-             (if decide (Huginn.KF.C06.docEmptyHorder d) then ["KF.C06.httpEmptyHorder"] else []),
+           kf := [],
            tag := (if wf then "doc/wf/" else "doc/nonwf/") ++ s!"s{min nsec 3}{docShape d}/" ++
              (if model.startsWith "err:" then model else "ok"),
            model := model, spec := if wf then spec else "-" }
@@ -460,8 +458,7 @@ def bundled (impl : String) : P Verdict := do
     | "uaos" =>
       (encList (fun (e : Str × Option Str) => sp [hexText e.1, encOptText e.2]) db.uaOs,
        encList (fun (e : String × Option String) => sp [hexText e.1.toList, encOptText (e.2.map String.toList)]) Gen.Bundled.uaOs,
-       if Gen.Bundled.uaOs.any (fun r => decide (Huginn.KF.C06.ruleUnreadable (r.1.toList, r.2.map String.toList)))
-       then ["KF.C06.uaOsLossy"] else [])
+       [])
     | "mtu" =>
       (encList (fun (e : Str × List Nat) => sp [hexText e.1, encList (fun n => hexText (natDigits n)) e.2]) db.mtu,
        specTable "mtu", [])
@@ -486,8 +483,7 @@ def compParse (impl : String) : P Verdict := do
                 some ((refOpt t).map (fun v => "ok " ++ encOpt v) |>.getD "err"))
     | "hdr" => ((full parseHeaderL t).map (fun v => "ok " ++ encHeader v) |>.getD "err", none)
     | _ => ("?", none)
-  let kf := if kind == "opt" && decide (Huginn.KF.C06.unknownKindOverflow t)
-    then ["KF.C06.unknownKindOverflow"] else []
+  let kf : List String := []
   pure (verdictOf impl model spec kf s!"pcomp/{kind}/{if model == "err" then "err" else "ok"}")
 
 def handlers : List (String × (String → P Verdict)) :=
